@@ -1032,6 +1032,17 @@ int ov_fopen(const char *path,OggVorbis_File *vf){
 int ov_halfrate(OggVorbis_File *vf,int flag){
   int i;
   if(vf->vi==NULL)return OV_EINVAL;
+
+  /* set the flag first: the decode machine re-initialised below must be
+     built for the new setting */
+  for(i=0;i<vf->links;i++){
+    if(vorbis_synthesis_halfrate(vf->vi+i,flag)){
+      /* refused; undo and leave decoding exactly as it was */
+      while(i-->0)vorbis_synthesis_halfrate(vf->vi+i,0);
+      return OV_EINVAL;
+    }
+  }
+
   if(vf->ready_state>STREAMSET){
     /* clear out stream state; dumping the decode machine is needed to
        reinit the MDCT lookups. */
@@ -1042,13 +1053,6 @@ int ov_halfrate(OggVorbis_File *vf,int flag){
       ogg_int64_t pos=vf->pcm_offset;
       vf->pcm_offset=-1; /* make sure the pos is dumped if unseekable */
       ov_pcm_seek(vf,pos);
-    }
-  }
-
-  for(i=0;i<vf->links;i++){
-    if(vorbis_synthesis_halfrate(vf->vi+i,flag)){
-      if(flag) ov_halfrate(vf,0);
-      return OV_EINVAL;
     }
   }
   return 0;
